@@ -241,6 +241,77 @@ fn hit_rate(k: usize, j: usize, depth: usize, seed: u64, iters: usize, acc: &mut
     }
 }
 
+/// Every position of a single preemption, including the LAST multi-choice decision: main spawns a
+/// reader whose whole body is one step (it reads a std atomic, no scheduling point of its own) and
+/// then performs `m` steps, each a Shuttle-visible store followed by publishing its index. The reader
+/// observes v = the number of steps main had done when the reader ran. Every execution has the same
+/// multi-choice steps, so PCT's estimate of k is exact; at depth 2 every v in 0..m must be hit with
+/// probability >= 1/(n*k) (v = m-1 needs the change point on the last decision).
+fn preemption_positions(m: usize, seed: u64, iters: usize, acc: &mut Acc) {
+    use std::sync::atomic::{AtomicUsize as StdAtomic, Ordering as O};
+    let hist: Arc<Vec<StdAtomic>> = Arc::new((0..=m).map(|_| StdAtomic::new(0)).collect());
+    let ksteps = Arc::new(StdAtomic::new(0));
+    let (h2, k2) = (hist.clone(), ksteps.clone());
+    let warm = 10usize;
+    let count = Arc::new(StdAtomic::new(0));
+    let c2 = count.clone();
+    let mut cfg = rec::base_config();
+    cfg.max_steps = shuttle::MaxSteps::FailAfter(5_000);
+    let h3 = hist.clone();
+    let rr = rec::run_streamed(
+        PctScheduler::new_from_seed(seed, 2, iters),
+        cfg,
+        move || {
+            let published = Arc::new(StdAtomic::new(0));
+            let x = Arc::new(shuttle::sync::atomic::AtomicUsize::new(0));
+            let p2 = published.clone();
+            let (h, c) = (h2.clone(), c2.clone());
+            let reader = shuttle::thread::spawn(move || {
+                let v = p2.load(O::SeqCst);
+                if c.load(O::SeqCst) >= warm {
+                    h[v].fetch_add(1, O::SeqCst);
+                }
+            });
+            for i in 0..m {
+                x.store(i, shuttle::sync::atomic::Ordering::SeqCst);
+                published.store(i + 1, O::SeqCst);
+            }
+            reader.join().unwrap();
+            c2.fetch_add(1, O::SeqCst);
+        },
+        move |f| {
+            let k = f.log.events.iter().filter(|e| matches!(e, Ev::Decision(d) if d.offered.len() > 1)).count();
+            k2.fetch_max(k, O::SeqCst);
+        },
+    );
+    let _ = h3;
+    let total = count.load(O::SeqCst).saturating_sub(warm) as f64;
+    acc.evaluations += count.load(O::SeqCst) as u64;
+    acc.add("hit_rate_experiments", 1);
+    if rr.term != Term::Pass || total < (iters / 2) as f64 {
+        acc.notes.push(format!("preemption-position workload ended {:?} after {} executions", rr.term, count.load(O::SeqCst)));
+        return;
+    }
+    let k = ksteps.load(O::SeqCst).max(1) as f64;
+    let bound = 1.0 / (2.0 * k);
+    let sigma = (total * bound * (1.0 - bound)).sqrt();
+    let floor = total * bound - 6.2 * sigma;
+    let counts: Vec<usize> = hist.iter().map(|c| c.load(O::SeqCst)).collect();
+    acc.notes.push(format!("hit-rate: preemption positions m={m} pct_depth=2 n=2 k_steps={} iterations={} histogram(reader saw v steps)={:?} guaranteed_per_position={bound:.5}", k as usize, total as usize, counts));
+    for (v, c) in counts.iter().enumerate().take(m) {
+        if v == 0 {
+            continue; // v = 0 is the depth-1 outcome (reader first)
+        }
+        if (*c as f64) < floor {
+            acc.violation(
+                "detection-bound-missed",
+                format!("single-preemption bug at position {v} of {m} (the reader must run after exactly {v} of main's {m} steps): {c} hits in {} iterations is significantly below the guaranteed 1/(n*k) = {bound:.5} (p<1e-9); histogram {:?}", total as usize, counts),
+                json!({"m": m, "position": v, "seed": seed}),
+            );
+        }
+    }
+}
+
 pub fn run(r: &mut Report) {
     let mut rng = Rng::new(r.seed ^ 0xC11);
     let per_family = if r.quick() { 3 } else { 25 };
@@ -283,8 +354,12 @@ pub fn run(r: &mut Report) {
         // ... and on the first one that may be a change point
         (6, 1, 2, rng.next()),
     ];
-    let accs = oracle::parallel(n_trace + hr.len(), oracle::workers(), |i, acc| {
-        if i < n_trace {
+    let pp: Vec<(usize, u64)> = vec![(4, rng.next()), (7, rng.next())];
+    let accs = oracle::parallel(n_trace + hr.len() + pp.len(), oracle::workers(), |i, acc| {
+        if i >= n_trace + hr.len() {
+            let (m, s) = pp[i - n_trace - hr.len()];
+            preemption_positions(m, s, hr_iters / 2, acc);
+        } else if i < n_trace {
             let (label, p, s, d) = &items[i];
             trace_family(p, *s, *d, iters, acc, label);
         } else {
